@@ -695,9 +695,13 @@ class DynamicsSelector(abc.Mapping):
             transitions = transitions.transitions
         self.__choices: dict[TwoBodyDecay, ResonanceDynamicsBuilder] = {}
         for transition in transitions:
-            for node_id in transition.topology.nodes:
-                decay = TwoBodyDecay.from_transition(transition, node_id)
-                self.__choices[decay] = create_non_dynamic
+            # identical-particle combinatorics produce chains with swapped final-state
+            # IDs, whose nodes have to be selectable as well
+            for graph in _perform_combinatorics(transition):
+                swapped_transition = _freeze(graph)
+                for node_id in swapped_transition.topology.nodes:
+                    decay = TwoBodyDecay.from_transition(swapped_transition, node_id)
+                    self.__choices[decay] = create_non_dynamic
 
     @singledispatchmethod
     def assign(  # noqa: PLR6301
